@@ -280,6 +280,55 @@ func run(r *gen.Rng, tier string, shard, nshard int) {
 		w.Count("counter/full-cycle")
 		w.Distinct(fmt.Sprintf("cycle%d", st))
 	}
+	// (2b) a counter restored at any value restarts at 1 after Reset, like a new one
+	for i, st := range []int{0, 1, 2, 300, 32768, 65535, 1 + r.Intn(65535)} {
+		if i%nshard != shard {
+			continue
+		}
+		w.Case(fmt.Sprintf("counter-reset start=%d", st))
+		c := session.NewIDCounterWithNext(packet.ID(st))
+		w.Op(fmt.Sprintf("sess counter %d", st), "ok")
+		for k, n := 0, r.Intn(4); k < n; k++ {
+			w.Op("sess nextid", fmt.Sprint(c.NextID()))
+		}
+		c.Reset()
+		w.Op("sess creset", "ok")
+		id := c.NextID()
+		w.Op("sess nextid", fmt.Sprint(id))
+		if id != 1 {
+			w.Monitor("C18", "reset-not-one", fmt.Sprintf("counter restored at %d: first id after Reset is %d, not 1", st, id), []string{fmt.Sprintf("sess counter %d", st), "sess creset", "sess nextid"})
+		}
+		w.Count("counter/reset")
+	}
+	// (2c) the session's allocator is the counter, whatever its stores hold: a full run of 65535 allocations on a
+	// MemorySession with packets stored in both directions
+	if shard == 1%nshard {
+		w.Case("full-cycle session with stored packets")
+		x := newS()
+		for _, id := range []packet.ID{3, 4, 70, 65535} {
+			x.save(session.Outgoing, mkPkt(id, int(id)))
+		}
+		x.save(session.Incoming, mkPkt(5, 2))
+		seen := make([]bool, 65536)
+		ids := make([]int, 65535)
+		sum := 0
+		for k := range ids {
+			id := int(x.s.NextID())
+			ids[k] = id
+			sum += id
+			if id == 0 || seen[id] {
+				x.hit("id-repeat", fmt.Sprintf("session with stored packets: id %d at allocation %d is zero or repeated", id, k))
+				break
+			}
+			seen[id] = true
+		}
+		xs := 7
+		for k := len(ids) - 1; k >= 0; k-- {
+			xs = (xs*31 + ids[k]) % 1000000007
+		}
+		x.op("sess nextids 65535", fmt.Sprintf("%d %d %d %d", ids[0], ids[len(ids)-1], sum, xs))
+		w.Count("counter/full-cycle-session")
+	}
 	// (3) bounded-exhaustive store histories: 2 directions x ids {1,2,65535} x ops
 	var alpha []sop
 	for _, d := range []session.Direction{session.Incoming, session.Outgoing} {
